@@ -650,6 +650,30 @@ class Evaluator:
         self._loop_stores[head.id] = out
         return out
 
+    def exec_fork(self, st: State, n: Node, label: str) -> list[State]:
+        """exec_node, forking the state on an undecided top-level conditional expression
+        (`x = a if c else b`, `return a if c else b`) so that each outcome is a path of its own"""
+        a = n.ast
+        if n.kind == "stmt" and isinstance(a, (ast.Assign, ast.AnnAssign, ast.Return)) and isinstance(getattr(a, "value", None), ast.IfExp) and not label.startswith("exc:"):
+            import copy as _copy
+
+            c = self.term(a.value.test, st, True, n.id)
+            v = tv(c, st.known)
+            outs: list[State] = []
+            for truth in ([v] if v is not None else [True, False]):
+                s2 = st.clone() if v is None else st
+                if v is None:
+                    self.add_cond(s2, c, truth)
+                    if not s2.feasible:
+                        continue
+                a2 = _copy.copy(a)
+                a2.value = a.value.body if truth else a.value.orelse
+                n2 = Node(n.id, n.kind, a2, n.owner, n.copy)
+                outs.extend(self.exec_fork(s2, n2, label))
+            return outs
+        self.exec_node(st, n, label)
+        return [st]
+
     def exec_node(self, st: State, n: Node, label: str) -> None:
         """apply the effect of leaving node n over an edge labelled `label`"""
         cfg = self.cfg
@@ -769,18 +793,16 @@ class Evaluator:
             for (m, lab) in cfg.succ[nid]:
                 if m in seen and m in back_stops and m not in avoid:
                     # back edge to a stop node (one full trip round a loop)
-                    st2 = st.clone()
-                    self.exec_node(st2, cfg.nodes[nid], lab)
-                    if st2.feasible:
-                        count += 1
-                        yield path + [(m, lab)], st2
+                    for st2 in self.exec_fork(st.clone(), cfg.nodes[nid], lab):
+                        if st2.feasible:
+                            count += 1
+                            yield path + [(m, lab)], st2
             succ = [(m, lab) for (m, lab) in cfg.succ[nid] if m not in seen and m not in avoid]
             for (m, lab) in reversed(succ):
-                st2 = st.clone()
-                self.exec_node(st2, cfg.nodes[nid], lab)
-                if not st2.feasible:
-                    continue
-                stack.append((m, path + [(m, lab)], seen | {m}, st2))
+                for st2 in self.exec_fork(st.clone(), cfg.nodes[nid], lab):
+                    if not st2.feasible:
+                        continue
+                    stack.append((m, path + [(m, lab)], seen | {m}, st2))
 
 
 def _as_load(t: ast.AST) -> ast.AST:
